@@ -173,7 +173,7 @@ inline void verify_sum(Layer& L, Sum s, const uint8_t* b, size_t from, size_t to
                        uint16_t* field = nullptr, uint16_t* calc = nullptr) {
     Sum with = s;
     with.add(b + from, to - from);
-    uint16_t total = with.folded(&folds);
+    uint16_t total = with.folded();
     out = total == 0xffff ? CS_OK : CS_BAD;
     uint16_t fld = be16(b + field_off);
     // value a sender computes with the field zeroed
@@ -181,7 +181,7 @@ inline void verify_sum(Layer& L, Sum s, const uint8_t* b, size_t from, size_t to
     wo.add(b + from, field_off - from);
     wo.add(b + field_off + 2, to - field_off - 2);
     // (field_off is even relative to `from` in every protocol handled here, so splitting keeps the word alignment)
-    uint16_t c = (uint16_t)~wo.folded();
+    uint16_t c = (uint16_t)~wo.folded(&folds);   // folds: end-around-carry rounds the sender's computation needs
     if (field) *field = fld;
     if (calc) *calc = c;
     (void)L;
@@ -573,7 +573,7 @@ inline Layer dissect_one(Proto proto, const uint8_t* b, size_t off, size_t end, 
             uint32_t w = first;
             p += 4;
             while (w & 0x80000000u) {
-                if (p + 4 > off + len) { L.fail("present-bitmap-beyond-header", "chained present words run past it_len " + num(len)); return L; }
+                if (p + 4 > off + len) { first &= ~2u; break; }  // malformed field list: an acceptance question, not a derived field
                 w = le32(b + p);
                 p += 4;
             }
@@ -592,9 +592,9 @@ inline Layer dissect_one(Proto proto, const uint8_t* b, size_t off, size_t end, 
                             L.pay_end = end - 4;
                             L.fcs_field = le32(b + end - 4);  // transmitted least significant octet first
                             L.fcs_calc = crc32_ieee(b + off + len, end - 4 - (off + len));
-                        } else L.fail("fcs-flag-without-room", "FCS flag set but only " + num(end - off - len) + " bytes follow the header");
+                        }
                     }
-                } else L.fail("flags-field-beyond-header", "FLAGS present but it_len " + num(len) + " ends before it");
+                }
             }
             L.next = P_DOT11;
             break;
